@@ -1,0 +1,9 @@
+//go:build verif
+// +build verif
+
+package miner
+
+// VerifGetSleepTime exposes getSleepTime to the conformance harness (build tag verif only).
+func (m *Miner) VerifGetSleepTime(mineHeight uint32, distance uint32, parentTime int64, currentTime int64) (int64, int64) {
+	return m.getSleepTime(mineHeight, distance, parentTime, currentTime)
+}
